@@ -216,3 +216,93 @@ func VerifC08_SubVsTopicDelete() {
 	verifrt.Reach(tag+":sub-ok", err == nil)
 	verifrt.Reach(tag+":sub-refused", err != nil)
 }
+
+// A late answer racing Empty followed by a NEW delivery: FIN / REQ / TOUCH for message A has taken
+// A out of the in-flight map when the channel is emptied; a new message B is then delivered (takes
+// A's slot in the deadline heap) before the answer's heap removal runs. Whatever happens to A, the
+// new delivery B must stay in flight AND in the deadline heap (else it never times out and is never
+// redelivered) and keeps being answerable by its holder.
+func VerifC08_StaleAnswerVsNewDelivery() {
+	o := verifOpts()
+	o.MemQueueSize = 3
+	var st *verifChan
+	var cl *clientV2
+	var a, b *Message
+	op := verifrt.Choice("op", 3)
+	tag := []string{"FIN", "REQ0", "TOUCH"}[op]
+	verifrt.Atomic(func() {
+		verifConcreteIDs, verifIDSeq = true, 0
+		st = verifNewChan(o, "ch")
+		cl = st.addClient(1)
+		st.populate(1, 0, 0, 0, 1)
+		a = st.inFlight[0]
+		b = verifMsg("b", 1)
+	})
+	p := &protocolV2{nsqd: st.n}
+	id := a.ID
+	verifrt.Go("answer", func() {
+		switch op {
+		case 0:
+			p.FIN(cl, [][]byte{[]byte("FIN"), id[:]})
+		case 1:
+			p.REQ(cl, [][]byte{[]byte("REQ"), id[:], []byte("0")})
+		case 2:
+			p.TOUCH(cl, [][]byte{[]byte("TOUCH"), id[:]})
+		}
+	})
+	verifrt.Go("empty-then-deliver", func() {
+		st.c.Empty()
+		st.c.StartInFlightTimeout(b, cl.ID, time.Minute)
+	})
+	verifrt.Join()
+	got, inMap := st.c.inFlightMessages[b.ID]
+	verifrt.Assert(inMap && got == b, tag+":new-delivery-stays-in-flight")
+	inHeap := 0
+	for i, m := range st.c.inFlightPQ {
+		if m == b {
+			inHeap++
+			verifrt.Assert(b.index == i, tag+":new-delivery-heap-index-is-right")
+		}
+	}
+	verifrt.Assert(inHeap == 1, tag+":new-delivery-stays-in-the-deadline-heap")
+	// scans at the end of time time B out: it is re-queued for redelivery (a pass stops at a stale
+	// heap entry left by the answer racing Empty - known finding - so the scanner's "dirty" loop is
+	// followed for a few passes)
+	for pass := 0; pass < 3 && st.c.processInFlightQueue(int64(3500000000000000000)); pass++ {
+	}
+	w := st.locate(b.ID)
+	verifrt.Assert(w.inFlight == 0 && w.memory+w.backend == 1, tag+":new-delivery-times-out-and-is-requeued")
+	verifrt.Reach("raced-new-delivery:"+tag, true)
+}
+
+// Channel delete overlapping the delete of its topic (explicit /channel/delete or the ephemeral
+// auto-delete callback, against /topic/delete): both return - no deadlock, no panic - and nothing
+// of the topic stays open or registered.
+func VerifC08_ChannelDeleteVsTopicDelete() {
+	o := verifOpts()
+	o.MemQueueSize = 1
+	n := verifShellNSQD(o)
+	disk := verifNewDisk()
+	verifrt.StubNative("(*github.com/nsqio/nsq/nsqd.NSQD).Notify", verifNotifyNop)
+	verifrt.Preemptions(verifrt.Bound("delete-vs-delete-preemptions", 1, 2))
+	ephemeral := verifrt.Choice("ephemeral", 2) == 1
+	tag, topicName, chanName := "durable", "t", "ch"
+	if ephemeral {
+		tag, topicName, chanName = "ephemeral", "e#ephemeral", "ch#ephemeral"
+	}
+	var t *Topic
+	verifrt.Atomic(func() {
+		t = n.GetTopic(topicName)
+		c := t.GetChannel(chanName)
+		c.PutMessage(verifMsg("m", 1))
+	})
+	doneC, doneT := false, false
+	verifrt.Go("delete-channel", func() { t.DeleteExistingChannel(chanName); doneC = true })
+	verifrt.Go("delete-topic", func() { n.DeleteExistingTopic(topicName); doneT = true })
+	verifrt.Join()
+	verifrt.Assert(doneC && doneT, tag+":both-deletes-return")
+	_, still := n.topicMap[topicName]
+	verifrt.Assert(!still, tag+":topic-is-gone")
+	disk.assertNoLeak(n, tag)
+	verifrt.Reach("deleted-both:"+tag, doneC && doneT)
+}
